@@ -11,7 +11,7 @@ FAMILIES = {
 
 def build(repo):
     """(re)build the searcher against repo's working tree; returns path of the binary or raises"""
-    work = os.path.join(VERIF, 'build', 'searcher')
+    work = os.path.join(os.environ.get('VERIF_BUILD') or os.path.join(VERIF, 'build'), 'searcher')
     os.makedirs(os.path.join(work, 'src'), exist_ok=True)
     open(os.path.join(work, 'Cargo.toml'), 'w').write('''[package]
 name = "scnr-searcher"
